@@ -37,7 +37,11 @@ pub fn guard<T>(f: impl FnOnce() -> T) -> Result<T, String> {
     LAST_PANIC.with(|l| *l.borrow_mut() = None);
     match catch_unwind(AssertUnwindSafe(f)) {
         Ok(v) => Ok(v),
-        Err(_) => Err(LAST_PANIC.with(|l| l.borrow_mut().take()).unwrap_or_else(|| "panic".into())),
+        Err(_) => Err(LAST_PANIC
+            .with(|l| l.borrow_mut().take())
+            // the panic may have happened on a pool thread and been propagated by rayon
+            .or_else(|| ALL_PANICS.lock().ok().and_then(|v| v.last().cloned()))
+            .unwrap_or_else(|| "panic".into())),
     }
 }
 
